@@ -2,7 +2,7 @@
    Model: History.hstep / hrun (History.v) over ArgStore.step_w; the boolean invariants
    seqs_ok_b and last_is_current_b are the ones C16Check tests against the implementation.
    This file contains statements only; proofs live in theories/History_proofs.v. *)
-From Fiddle Require Import PyBase PySlice Sig ArgStore ArgSpec History History_proofs Anchors.
+From Fiddle Require Import PyBase PySlice Sig ArgStore ArgSpec History History_proofs AnchorsEdit.
 
 (* ---- 1. sequence numbers: below the counter, unique, increasing per key -- every operation *)
 Theorem C16_seqs_ok_hstep :
